@@ -2,12 +2,18 @@
 Model of `pybtex/utils.py`: `CaseInsensitiveDict`, `OrderedCaseInsensitiveDict`,
 `CaseInsensitiveDefaultDict`, `CaseInsensitiveSet`.
 
-The code keeps two parallel Python dicts, `_dict : lowerU key ↦ value` and
-`_keys : lowerU key ↦ spelling`; the model keeps exactly those two tables (as insertion-ordered
+The code keeps two parallel Python dicts, `_dict : key.lower() ↦ value` and
+`_keys : key.lower() ↦ spelling`; the model keeps exactly those two tables (as insertion-ordered
 association lists) and every method does to them what the Python method does, including the
 order in which the two tables are touched and the `KeyError` points.  Methods inherited from
-`collections.abc.MutableMapping` (`get`, `setdefault`, `pop`, `popitem`, `clear`, `update`,
-`items`) are modelled through the primitive methods, as the mix-in implements them.
+`collections.abc.MutableMapping` / `MutableSet` (`get`, `setdefault`, `pop`, `popitem`, `clear`,
+`update`, `items`, `keys`, `values`, `|=`, `-=` ...) are modelled through the primitive methods,
+as the mix-ins implement them.
+
+The key normaliser `key.lower()` is a PARAMETER `norm : Str → Str` of every definition: the driver
+runs the model with `norm := lowerPy` (`Model/UniCase.lean`, `str.lower()` of the running
+interpreter on whole strings), the theorems are proved for every `norm` with
+`norm (norm k) = norm k`.
 -/
 import PybtexModel.Model.PyDict
 import PybtexModel.Model.UniCase
@@ -20,60 +26,63 @@ structure CIDict (V : Type) where
 deriving Repr
 
 namespace CIDict
-variable {V : Type}
+variable {V : Type} (norm : Str → Str)
 
 def empty : CIDict V := ⟨[], []⟩
-
-/-- `__init__(pairs)`: `initial = dict(pairs)`, then the two comprehensions. -/
-def ofPairs (ps : List (Str × V)) : CIDict V :=
-  let initial := dofPairs ps
-  { dict := dofPairs (initial.map fun p => (lowerU p.1, p.2)),
-    keys := dofPairs (initial.map fun p => (lowerU p.1, p.1)) }
 
 def len (d : CIDict V) : Nat := d.dict.length
 def iter (d : CIDict V) : List Str := d.keys.map Prod.snd
 
 def setItem (d : CIDict V) (k : Str) (v : V) : CIDict V :=
-  ⟨dset d.dict (lowerU k) v, dset d.keys (lowerU k) k⟩
+  ⟨dset d.dict (norm k) v, dset d.keys (norm k) k⟩
 
 /-- `none` = `KeyError`. -/
-def getItem (d : CIDict V) (k : Str) : Option V := dget d.dict (lowerU k)
+def getItem (d : CIDict V) (k : Str) : Option V := dget d.dict (norm k)
 
 /-- `__delitem__`: `del self._dict[kl]` then `del self._keys[kl]`; `false` = `KeyError`
 (the first table may already have been changed when the second raises). -/
 def delItem (d : CIDict V) (k : Str) : CIDict V × Bool :=
-  if dhas d.dict (lowerU k) then
-    if dhas d.keys (lowerU k) then (⟨ddel d.dict (lowerU k), ddel d.keys (lowerU k)⟩, true)
-    else (⟨ddel d.dict (lowerU k), d.keys⟩, false)
+  if dhas d.dict (norm k) then
+    if dhas d.keys (norm k) then (⟨ddel d.dict (norm k), ddel d.keys (norm k)⟩, true)
+    else (⟨ddel d.dict (norm k), d.keys⟩, false)
   else (d, false)
 
-def contains (d : CIDict V) (k : Str) : Bool := dhas d.dict (lowerU k)
+def contains (d : CIDict V) (k : Str) : Bool := dhas d.dict (norm k)
 
 /-- `items()` of the mix-in: `[(key, self[key]) for key in self]`; `none` = `KeyError`. -/
 def itemsAux (d : CIDict V) : List Str → Option (List (Str × V))
   | [] => some []
   | k :: r =>
-    match getItem d k with
+    match getItem norm d k with
     | none => none
     | some v => (itemsAux d r).map ((k, v) :: ·)
 
-def items (d : CIDict V) : Option (List (Str × V)) := itemsAux d (iter d)
+def items (d : CIDict V) : Option (List (Str × V)) := itemsAux norm d (iter d)
+
+/-- `keys()`: `KeysView.__iter__` is `iter(self)`. -/
+def keysView (d : CIDict V) : List Str := iter d
+
+/-- `values()`: `ValuesView.__iter__` is `self[key] for key in self` (the look-ups `items()` does). -/
+def values (d : CIDict V) : Option (List V) := (items norm d).map fun l => l.map Prod.snd
+
+/-- `bool(d)`: no `__bool__`, so `len(d) != 0`. -/
+def truth (d : CIDict V) : Bool := len d != 0
 
 /-- `Mapping.get(key, default)`. -/
-def getD (d : CIDict V) (k : Str) (dflt : V) : V := (getItem d k).getD dflt
+def getD (d : CIDict V) (k : Str) (dflt : V) : V := (getItem norm d k).getD dflt
 
 /-- `MutableMapping.setdefault`. -/
 def setDefault (d : CIDict V) (k : Str) (dflt : V) : CIDict V × V :=
-  match getItem d k with
+  match getItem norm d k with
   | some v => (d, v)
-  | none => (setItem d k dflt, dflt)
+  | none => (setItem norm d k dflt, dflt)
 
 /-- `MutableMapping.pop(key[, default])`; result `none` = `KeyError`. -/
 def pop (d : CIDict V) (k : Str) (dflt : Option V) : CIDict V × Option V :=
-  match getItem d k with
+  match getItem norm d k with
   | none => (d, dflt)
   | some v =>
-    let r := delItem d k
+    let r := delItem norm d k
     (r.1, if r.2 then some v else none)
 
 /-- `MutableMapping.popitem()`: first key in iteration order; `none` = `KeyError`. -/
@@ -81,34 +90,99 @@ def popItem (d : CIDict V) : CIDict V × Option (Str × V) :=
   match iter d with
   | [] => (d, none)
   | k :: _ =>
-    match getItem d k with
+    match getItem norm d k with
     | none => (d, none)
     | some v =>
-      let r := delItem d k
+      let r := delItem norm d k
       (r.1, if r.2 then some (k, v) else none)
 
-/-- `MutableMapping.update(pairs)`. -/
+/-- `MutableMapping.update(pairs)`: `for key, value in pairs: self[key] = value`. -/
 def update (d : CIDict V) (ps : List (Str × V)) : CIDict V :=
-  ps.foldl (fun d p => setItem d p.1 p.2) d
+  ps.foldl (fun d p => setItem norm d p.1 p.2) d
+
+/-- `__init__(pairs, **kwargs)`: the two tables start empty and are filled by `self.update(...)`,
+i.e. the pairs (then the keyword arguments) are written one after the other. -/
+def ofPairs (ps : List (Str × V)) : CIDict V := update norm empty ps
+
+/-- `d[k] = f(d[k])` (augmented assignment `d[k] += n`): `__getitem__` then `__setitem__`. -/
+def modify (d : CIDict V) (k : Str) (f : V → V) : CIDict V × Bool :=
+  match getItem norm d k with
+  | none => (d, false)
+  | some v => (setItem norm d k (f v), true)
 
 /-- `lower()`: `type(self)(self.items_lower())`. -/
 def lowered (d : CIDict V) : Option (CIDict V) :=
-  (items d).map fun its => ofPairs (its.map fun p => (lowerU p.1, p.2))
+  (items norm d).map fun its => ofPairs norm (its.map fun p => (norm p.1, p.2))
 
 /-- `MutableMapping.clear()`: `popitem()` until `KeyError`.  Fuel = number of keys. -/
 def clearAux : Nat → CIDict V → CIDict V
   | 0, d => d
   | n + 1, d =>
-    match (popItem d).2 with
-    | none => (popItem d).1
-    | some _ => clearAux n (popItem d).1
+    match (popItem norm d).2 with
+    | none => (popItem norm d).1
+    | some _ => clearAux n (popItem norm d).1
 
-def clear (d : CIDict V) : CIDict V := clearAux (d.keys.length + 1) d
-
-/-- `CaseInsensitiveDefaultDict.__getitem__`: the factory value for an absent key, nothing stored. -/
-def getItemDefault (d : CIDict V) (k : Str) (dflt : V) : V := (getItem d k).getD dflt
+def clear (d : CIDict V) : CIDict V := clearAux norm (d.keys.length + 1) d
 
 end CIDict
+
+/-! ### `CaseInsensitiveDefaultDict(default_factory)`
+
+`__getitem__` is overridden (the factory value for an absent key, nothing stored), so every mix-in
+method that is written in terms of `self[key]` sees the defaulting look-up: `items()`, `values()`,
+`popitem()`, `clear()`, `d[k] += n`.  `get`, `setdefault` and `pop` are overridden in the class and
+ask `key in self` first.  `fac` is the value `default_factory()` returns. -/
+namespace CIDict.DD
+variable {V : Type} (norm : Str → Str) (fac : V)
+
+/-- `CaseInsensitiveDefaultDict.__getitem__`: never raises. -/
+def getItem (d : CIDict V) (k : Str) : V := (CIDict.getItem norm d k).getD fac
+
+/-- `items()` through the defaulting `__getitem__`. -/
+def items (d : CIDict V) : List (Str × V) := (iter d).map fun k => (k, getItem norm fac d k)
+
+def values (d : CIDict V) : List V := (items norm fac d).map Prod.snd
+
+/-- `get(key, default)`: `self[key] if key in self else default`. -/
+def getD (d : CIDict V) (k : Str) (dflt : V) : V :=
+  if contains norm d k then getItem norm fac d k else dflt
+
+/-- `setdefault`: `if key not in self: self[key] = default`, then `return self[key]`. -/
+def setDefault (d : CIDict V) (k : Str) (dflt : V) : CIDict V × V :=
+  let d' := if contains norm d k then d else setItem norm d k dflt
+  (d', getItem norm fac d' k)
+
+/-- `pop(key[, default])`: present: `value = self[key]; del self[key]`; absent: the default, or `KeyError` (= `none`). -/
+def pop (d : CIDict V) (k : Str) (dflt : Option V) : CIDict V × Option V :=
+  if contains norm d k then
+    let v := getItem norm fac d k
+    let r := delItem norm d k
+    (r.1, if r.2 then some v else none)
+  else (d, dflt)
+
+/-- `MutableMapping.popitem()` over the defaulting `__getitem__`. -/
+def popItem (d : CIDict V) : CIDict V × Option (Str × V) :=
+  match iter d with
+  | [] => (d, none)
+  | k :: _ =>
+    let v := getItem norm fac d k
+    let r := delItem norm d k
+    (r.1, if r.2 then some (k, v) else none)
+
+def clearAux : Nat → CIDict V → CIDict V
+  | 0, d => d
+  | n + 1, d =>
+    match (popItem norm fac d).2 with
+    | none => (popItem norm fac d).1
+    | some _ => clearAux n (popItem norm fac d).1
+
+def clear (d : CIDict V) : CIDict V := clearAux norm fac (d.keys.length + 1) d
+
+/-- `lower()`: `result = type(self)(self.default_factory); result.update(self.items_lower())`. -/
+def lowered (d : CIDict V) : CIDict V :=
+  update norm empty ((items norm fac d).map fun p => (norm p.1, p.2))
+
+end CIDict.DD
 
 /-! ### Operations as data (for histories) -/
 
@@ -120,6 +194,9 @@ inductive Op (V : Type) where
   | len
   | iter
   | items
+  | keys
+  | values
+  | truth
   | getD (k : Str) (dflt : V)
   | setDefault (k : Str) (dflt : V)
   | pop (k : Str)
@@ -128,8 +205,7 @@ inductive Op (V : Type) where
   | update (ps : List (Str × V))
   | lower
   | clear
-  | getDefault (k : Str) (dflt : V)   -- the defaulting variant's `d[k]`
-deriving Repr
+  | modify (k : Str) (f : V → V)   -- `d[k] = f(d[k])`, e.g. `d[k] += 1`
 
 inductive Res (V : Type) where
   | unit
@@ -139,36 +215,70 @@ inductive Res (V : Type) where
   | nat (n : Nat)
   | keys (l : List Str)
   | items (l : List (Str × V))
+  | vals (l : List V)
   | pair (k : Str) (v : V)
 deriving Repr, DecidableEq
 
 namespace CIDict
-variable {V : Type}
+variable {V : Type} (norm : Str → Str)
 
+/-- one operation on `CaseInsensitiveDict` / `OrderedCaseInsensitiveDict` -/
 def step (d : CIDict V) : Op V → CIDict V × Res V
-  | .set k v => (setItem d k v, .unit)
-  | .get k => (d, match getItem d k with | some v => .val v | none => .keyError)
-  | .del k => let r := delItem d k; (r.1, if r.2 then .unit else .keyError)
-  | .contains k => (d, .bool (contains d k))
+  | .set k v => (setItem norm d k v, .unit)
+  | .get k => (d, match getItem norm d k with | some v => .val v | none => .keyError)
+  | .del k => let r := delItem norm d k; (r.1, if r.2 then .unit else .keyError)
+  | .contains k => (d, .bool (contains norm d k))
   | .len => (d, .nat (len d))
   | .iter => (d, .keys (iter d))
-  | .items => (d, match items d with | some l => .items l | none => .keyError)
-  | .getD k dflt => (d, .val (getD d k dflt))
-  | .setDefault k dflt => let r := setDefault d k dflt; (r.1, .val r.2)
-  | .pop k => let r := pop d k none; (r.1, match r.2 with | some v => .val v | none => .keyError)
-  | .popD k dflt => let r := pop d k (some dflt); (r.1, match r.2 with | some v => .val v | none => .keyError)
-  | .popItem => let r := popItem d; (r.1, match r.2 with | some p => .pair p.1 p.2 | none => .keyError)
-  | .update ps => (update d ps, .unit)
-  | .lower => match lowered d with | some d' => (d', .unit) | none => (d, .keyError)
-  | .clear => (clear d, .unit)
-  | .getDefault k dflt => (d, .val (getItemDefault d k dflt))
+  | .items => (d, match items norm d with | some l => .items l | none => .keyError)
+  | .keys => (d, .keys (keysView d))
+  | .values => (d, match values norm d with | some l => .vals l | none => .keyError)
+  | .truth => (d, .bool (truth d))
+  | .getD k dflt => (d, .val (getD norm d k dflt))
+  | .setDefault k dflt => let r := setDefault norm d k dflt; (r.1, .val r.2)
+  | .pop k => let r := pop norm d k none; (r.1, match r.2 with | some v => .val v | none => .keyError)
+  | .popD k dflt => let r := pop norm d k (some dflt); (r.1, match r.2 with | some v => .val v | none => .keyError)
+  | .popItem => let r := popItem norm d; (r.1, match r.2 with | some p => .pair p.1 p.2 | none => .keyError)
+  | .update ps => (update norm d ps, .unit)
+  | .lower => match lowered norm d with | some d' => (d', .unit) | none => (d, .keyError)
+  | .clear => (clear norm d, .unit)
+  | .modify k f => let r := modify norm d k f; (r.1, if r.2 then .unit else .keyError)
 
 /-- Run a history, collecting every result. -/
 def run (d : CIDict V) : List (Op V) → CIDict V × List (Res V)
   | [] => (d, [])
   | op :: ops =>
-    let r := step d op
+    let r := step norm d op
     let rest := run r.1 ops
+    (rest.1, r.2 :: rest.2)
+
+/-- one operation on `CaseInsensitiveDefaultDict` whose factory returns `fac` -/
+def DD.step (fac : V) (d : CIDict V) : Op V → CIDict V × Res V
+  | .set k v => (setItem norm d k v, .unit)
+  | .get k => (d, .val (DD.getItem norm fac d k))
+  | .del k => let r := delItem norm d k; (r.1, if r.2 then .unit else .keyError)
+  | .contains k => (d, .bool (contains norm d k))
+  | .len => (d, .nat (len d))
+  | .iter => (d, .keys (iter d))
+  | .items => (d, .items (DD.items norm fac d))
+  | .keys => (d, .keys (keysView d))
+  | .values => (d, .vals (DD.values norm fac d))
+  | .truth => (d, .bool (truth d))
+  | .getD k dflt => (d, .val (DD.getD norm fac d k dflt))
+  | .setDefault k dflt => let r := DD.setDefault norm fac d k dflt; (r.1, .val r.2)
+  | .pop k => let r := DD.pop norm fac d k none; (r.1, match r.2 with | some v => .val v | none => .keyError)
+  | .popD k dflt => let r := DD.pop norm fac d k (some dflt); (r.1, match r.2 with | some v => .val v | none => .keyError)
+  | .popItem => let r := DD.popItem norm fac d; (r.1, match r.2 with | some p => .pair p.1 p.2 | none => .keyError)
+  | .update ps => (update norm d ps, .unit)
+  | .lower => (DD.lowered norm fac d, .unit)
+  | .clear => (DD.clear norm fac d, .unit)
+  | .modify k f => (setItem norm d k (f (DD.getItem norm fac d k)), .unit)
+
+def DD.run (fac : V) (d : CIDict V) : List (Op V) → CIDict V × List (Res V)
+  | [] => (d, [])
+  | op :: ops =>
+    let r := DD.step norm fac d op
+    let rest := DD.run fac r.1 ops
     (rest.1, r.2 :: rest.2)
 
 end CIDict
@@ -176,59 +286,88 @@ end CIDict
 /-! ### `CaseInsensitiveSet` -/
 
 structure CISet where
-  set : List Str          -- Python `set` of lower-cased keys (order is not observable; kept by insertion)
-  keys : List (Str × Str) -- lowerU key ↦ last spelling
+  set : List Str          -- Python `set` of lower-cased keys (its order is not modelled; kept by insertion)
+  keys : List (Str × Str) -- key.lower() ↦ last spelling
 deriving Repr
 
+/-- Set operations as data.  `pop choice`: `pop()` in an execution in which the iterator of the Python
+`set` yields `choice` first (the order of a Python `set` is not modelled). -/
+inductive SOp where
+  | add (k : Str) | discard (k : Str) | remove (k : Str) | contains (k : Str) | canonical (k : Str) | lower
+  | len | iter | truth | pop (choice : Str) | clear | ior (l : List Str) | isub (l : List Str)
+deriving Repr
+
+/-- `badChoice`: the `choice` given to `pop` is not a member (no execution of the code does that). -/
+inductive SRes where
+  | unit | keyError | bool (b : Bool) | str (s : Str) | nat (n : Nat) | strs (l : List Str) | badChoice
+deriving Repr, DecidableEq
+
 namespace CISet
+variable (norm : Str → Str)
 
 def empty : CISet := ⟨[], []⟩
 
 def add (s : CISet) (k : Str) : CISet :=
-  ⟨if s.set.contains (lowerU k) then s.set else s.set ++ [lowerU k], dset s.keys (lowerU k) k⟩
+  ⟨if s.set.contains (norm k) then s.set else s.set ++ [norm k], dset s.keys (norm k) k⟩
 
-def ofList (l : List Str) : CISet := l.foldl add empty
+def ofList (l : List Str) : CISet := l.foldl (add norm) empty
 
 def discard (s : CISet) (k : Str) : CISet :=
-  ⟨s.set.erase (lowerU k), ddel s.keys (lowerU k)⟩
+  ⟨s.set.erase (norm k), ddel s.keys (norm k)⟩
 
-def contains (s : CISet) (k : Str) : Bool := s.set.contains (lowerU k)
+def contains (s : CISet) (k : Str) : Bool := s.set.contains (norm k)
 def len (s : CISet) : Nat := s.set.length
 /-- `__iter__` iterates the set of lower-cased keys. -/
 def iter (s : CISet) : List Str := s.set
 /-- `none` = `KeyError`. -/
-def canonical (s : CISet) (k : Str) : Option Str := dget s.keys (lowerU k)
+def canonical (s : CISet) (k : Str) : Option Str := dget s.keys (norm k)
 /-- the spellings shown by `repr` (sorted there). -/
 def spellings (s : CISet) : List Str := s.keys.map Prod.snd
-def lowered (s : CISet) : CISet := ofList s.set
+def lowered (s : CISet) : CISet := ofList norm s.set
 /-- `MutableSet.remove`: `KeyError` (= `false`) when absent. -/
 def remove (s : CISet) (k : Str) : CISet × Bool :=
-  if contains s k then (discard s k, true) else (s, false)
+  if contains norm s k then (discard norm s k, true) else (s, false)
 
-end CISet
+/-- `MutableSet.pop()`: `value = next(iter(self))` (`KeyError` when empty), `self.discard(value)`. -/
+def pop (s : CISet) (choice : Str) : CISet × SRes :=
+  match s.set with
+  | [] => (s, .keyError)
+  | _ :: _ => if s.set.contains choice then (discard norm s choice, .str choice) else (s, .badChoice)
 
-/-- Set operations as data. -/
-inductive SOp where
-  | add (k : Str) | discard (k : Str) | remove (k : Str) | contains (k : Str) | canonical (k : Str) | lower
-deriving Repr
+/-- `MutableSet.clear()`: `pop()` until `KeyError` (here in the model's own order). -/
+def clearAux : Nat → CISet → CISet
+  | 0, s => s
+  | n + 1, s =>
+    match s.set with
+    | [] => s
+    | c :: _ => clearAux n (discard norm s c)
 
-inductive SRes where
-  | unit | keyError | bool (b : Bool) | str (s : Str)
-deriving Repr, DecidableEq
+def clear (s : CISet) : CISet := clearAux norm s.set.length s
 
-namespace CISet
+/-- `s |= it`: `for value in it: self.add(value)`. -/
+def ior (s : CISet) (l : List Str) : CISet := l.foldl (add norm) s
+/-- `s -= it` (`it` another iterable): `for value in it: self.discard(value)`. -/
+def isub (s : CISet) (l : List Str) : CISet := l.foldl (discard norm) s
+
 def step (s : CISet) : SOp → CISet × SRes
-  | .add k => (s.add k, .unit)
-  | .discard k => (s.discard k, .unit)
-  | .remove k => let r := s.remove k; (r.1, if r.2 then .unit else .keyError)
-  | .contains k => (s, .bool (s.contains k))
-  | .canonical k => (s, match s.canonical k with | some x => .str x | none => .keyError)
-  | .lower => (s.lowered, .unit)
+  | .add k => (s.add norm k, .unit)
+  | .discard k => (s.discard norm k, .unit)
+  | .remove k => let r := s.remove norm k; (r.1, if r.2 then .unit else .keyError)
+  | .contains k => (s, .bool (s.contains norm k))
+  | .canonical k => (s, match s.canonical norm k with | some x => .str x | none => .keyError)
+  | .lower => (s.lowered norm, .unit)
+  | .len => (s, .nat s.len)
+  | .iter => (s, .strs s.iter)
+  | .truth => (s, .bool (s.len != 0))
+  | .pop choice => s.pop norm choice
+  | .clear => (s.clear norm, .unit)
+  | .ior l => (s.ior norm l, .unit)
+  | .isub l => (s.isub norm l, .unit)
 
 def run (s : CISet) : List SOp → CISet × List SRes
   | [] => (s, [])
   | op :: ops =>
-    let r := step s op
+    let r := step norm s op
     let rest := run r.1 ops
     (rest.1, r.2 :: rest.2)
 end CISet
